@@ -89,6 +89,8 @@ def prebuild(pg, op):
     return [k, op[1], arg_py(pg, op[2])]
   if k in ('update', 'ior', 'rebind'):
     return [k, {kk: arg_py(pg, v) for kk, v in op[1]}]
+  if k == 'rebind_paths':
+    return [k, {pg.KeyPath(list(path)): (pg.Insertion(tv.to_py(v)) if ins else tv.to_py(v)) for path, ins, v in op[1]}]
   return op
 
 
@@ -110,7 +112,7 @@ def run_dict_op(pg, target, op, is_object):
     target.update(op[1])
   elif k == 'ior':
     target |= op[1]
-  elif k == 'rebind':
+  elif k in ('rebind', 'rebind_paths'):
     target.rebind(op[1], raise_on_no_change=False)
   elif k == 'clear':
     target.clear()
@@ -276,7 +278,117 @@ class C03(Prop):
     fd['fz'] = True
     fd['n'] = 2 if fd['k'] == 'enum' else g.r.choice([1, 2])
 
+  def sub_paths(self, fd, depth=0):
+    """(path suffix, spec description of the addressed member or None) below a container spec."""
+    out = []
+    if fd['k'] == 'union':
+      for c in fd['cands']:
+        if c['k'] in ('list', 'dict'):
+          return self.sub_paths(c, depth)
+      return out
+    if fd['k'] == 'dict' and fd.get('fields'):
+      for key, sub in fd['fields']:
+        names = [key[1]] if key[0] == 'c' else {None: ['p', 'q'], 0: ['ab', 'abc'], 1: ['b', 'xb']}[key[1]]
+        for nm in names:
+          out.append(([nm], sub))
+          if depth < 2:
+            out += [([nm] + sfx, m) for sfx, m in self.sub_paths(sub, depth + 1)]
+      out.append((['zz'], None))
+    elif fd['k'] == 'list':
+      for i in range(0, 4):
+        out.append(([i], fd['elem']))
+        if depth < 2 and i < 2:
+          out += [([i] + sfx, m) for sfx, m in self.sub_paths(fd['elem'], depth + 1)]
+    return out
+
+  def unfreeze_inner(self, d, top=False):
+    """No frozen containers in the generated nested-path cases: whether the child created from a frozen
+    default is bound to its spec depends on how it was created (pg.Dict root: bound; pg.Object root and
+    deeper levels: stored unbound), which is outside the model.  The F185 witness (corpus) covers the
+    frozen case on a pg.Dict root."""
+    if d['k'] in ('list', 'dict', 'tuple', 'union'):
+      d.pop('fz', None)
+      d['n'] = 0
+      if not top:
+        d.pop('d', None)       # (a nested / noneable container default is re-applied through CustomTyping)
+    for sub in ([d['elem']] if 'elem' in d else []) + d.get('elems', []) + d.get('cands', []) + [f for _, f in (d.get('fields') or [])]:
+      self.unfreeze_inner(sub)
+
+  def gen_nested(self, rng, g, kind):
+    """Dict / Object whose container-typed fields are rewritten through nested key paths
+    (`rebind({'z.y': v, 'w[0]': v})`): allow_partial off, plain values only."""
+    while True:
+      names = rng.sample(['x', 'y', 'z', 'w'], rng.randint(1, 3))
+      fields = []
+      for nm in names:
+        fd = g.spec(0)
+        if rng.chance(0.75):
+          for _try in range(30):
+            c = g.spec(rng.choice([1, 1, 2]))
+            if c['k'] == 'list' or (c['k'] == 'dict' and c.get('fields')):
+              c['n'] = 0
+              if c.get('d') == ['N'] or not rng.chance(0.3):
+                c.pop('d', None)
+                c.pop('fz', None)
+              self.unfreeze_inner(c, top=True)
+              fd = c if rng.chance(0.8) else {'k': 'union', 'cands': [c, {'k': 'str', 'rx': None, 'n': 0}], 'n': 0}
+              break
+        fields.append([['c', nm], fd])
+      spec = {'k': 'dict', 'fields': fields, 'n': 0}
+      if 'obj' in json.dumps(spec) and '"cls": 4' in json.dumps(spec):
+        continue
+      try:
+        tv.build(spec)
+      except (TypeError, ValueError, KeyError):
+        continue
+      break
+    items = [[f[0][1], g.valid(f[1])] for f in fields if not (f[1].get('d') is not None and rng.chance(0.3))]
+    ops = []
+    for _ in range(rng.randint(1, 7)):
+      if rng.chance(0.25):
+        k = rng.choice(names)
+        fd = [f[1] for f in fields if f[0][1] == k][0]
+        v = g.valid(fd) if rng.chance(0.7) else g.near_miss(fd)
+        ops.append([[('setattr' if kind == 'object' else 'setitem'), k, v], None])
+        continue
+      entries = []
+      for _e in range(rng.weighted([(6, 1), (3, 2), (1, 3)])):
+        k = rng.choice(names + (['nope'] if rng.chance(0.05) else []))
+        fd = ([f[1] for f in fields if f[0][1] == k] or [None])[0]
+        subs = self.sub_paths(fd) if fd is not None else []
+        if not subs or rng.chance(0.1):
+          # a direct key, or a step below a member that is no container (key kinds always match the
+          # container kind: a str key on a list trips an `assert` in list.py, outside the property)
+          cont = fd
+          if fd is not None and fd['k'] == 'union':
+            cont = ([c for c in fd['cands'] if c['k'] in ('list', 'dict')] or [fd])[0]
+          step = 0 if (cont is not None and cont['k'] == 'list') else 'y'
+          path, m = [k] + ([step] if rng.chance(0.5) else []), (fd if fd is not None else None)
+          if len(path) > 1:
+            m = None
+        else:
+          sfx, m = rng.choice(subs)
+          path = [k] + sfx
+        c = rng.below(20)
+        if m is None:
+          v = copy.deepcopy(rng.choice(tv.ATOMS[:10]))
+        elif c < 11:
+          v = g.valid(m)
+        elif c < 18:
+          v = g.near_miss(m)
+        else:
+          v = ['M']
+        ins = isinstance(path[-1], int) and v != ['M'] and rng.chance(0.25)
+        if [e for e in entries if e[0] == path]:
+          continue
+        entries.append([path, ins, v])
+      if entries:
+        ops.append([['rebind_paths', entries], None])
+    return {'kind': kind, 'spec': spec, 'partial': False, 'items': items, 'ops': ops}
+
   def gen_dict(self, rng, g, kind):
+    if rng.chance(0.3):
+      return self.gen_nested(rng, g, kind)
     while True:
       names = rng.sample(['x', 'y', 'z', 'w'], rng.randint(1, 3))
       fields = []
@@ -541,7 +653,9 @@ class C03(Prop):
         run_list_op(pg, lst, op)
       except (TypeError, ValueError, KeyError, IndexError) as e:
         err = type(e).__name__
+      n0 = len(why)
       m['steps'].append({'err': err, 'items': tv.from_py(lst)[1], 'conforms': conforms(lst)})
+      out.setdefault('why_steps', []).append(why[n0:])
     out['model'] = m
     out['typed'] = lst.value_spec is not None
     return out
@@ -604,8 +718,10 @@ class C03(Prop):
       out.setdefault('attached', []).append(att)
       # derived state is queried between the steps, as a user program would (and memoised by pyglove)
       out.setdefault('derived', []).append([bool(target.is_partial), len(target.sym_missing())])
+      n0 = len(why)
       m['steps'].append({'err': err, 'items': content(target), 'conforms': conforms(target, True),
                          'complete': conforms(target, False)})
+      out.setdefault('why_steps', []).append(why[n0:])
       typed.append(is_object or target.value_spec is not None)
     out['model'] = m
     out['typed'] = all(typed) if typed else True
@@ -624,70 +740,99 @@ class C03(Prop):
   # -- the property itself --------------------------------------------------------------------
   _known = None
 
-  def oracle(self, case, out):
-    """First failure; one that is not a listed finding takes precedence over listed ones."""
-    f = self.oracle_first(case, out)
-    return f
+  def known_signatures(self):
+    if C03._known is None:
+      from harness.common import framework
+      sigs = set()
+      for e in framework.load_findings(self.id):
+        if e.get('status') == 'known':
+          sigs.update(e.get('signature', '').split('|'))
+      C03._known = sigs
+    return C03._known
 
-  def oracle_first(self, case, out):
+  def oracle(self, case, out):
+    """All failing steps are collected; the first failure that is not a listed finding is reported
+    (a known defect early in a history cannot mask a new one later), else the first listed one."""
+    fails = []
+    self.oracle_all(case, out, fails)
+    if not fails:
+      return None
+    known = self.known_signatures()
+    for f in fails:
+      if f['signature'] not in known:
+        return f
+    return fails[0]
+
+  def oracle_all(self, case, out, fails):
     case = self.normalise(case)
     m = out['model']
     kind = case['kind']
+
+    def add(sig, what):
+      if len(fails) < 24 and sig not in [f['signature'] for f in fails]:
+        fails.append({'signature': sig, 'what': what})
+
     if isinstance(m['construct'], str):
       if m['construct'] not in SCHEMA_ERRS:
-        return {'signature': 'construct-error-class:' + m['construct'], 'what': 'constructor raised ' + m['construct']}
-      return None
+        add('construct-error-class:' + m['construct'], 'constructor raised ' + m['construct'])
+      return
     st = out['state']
     if not m['conforms']:
-      return {'signature': 'construct-nonconforming:' + kind,
-              'what': 'constructed %s %s violates its spec %s' % (kind, json.dumps(m['construct']), json.dumps(st))}
+      add('construct-nonconforming:' + kind,
+          'constructed %s %s violates its spec %s' % (kind, json.dumps(m['construct']), json.dumps(st)))
     if not out.get('typed', True):
-      return {'signature': 'value-spec-lost:' + kind, 'what': 'the container is no longer bound to its value spec'}
+      add('value-spec-lost:' + kind, 'the container is no longer bound to its value spec')
     partial_allowed = kind != 'list' and case['partial']
     if kind != 'list' and not partial_allowed and not m['complete']:
-      return {'signature': 'construct-partial:' + kind, 'what': 'constructed without allow_partial but a required field is missing: %s' % json.dumps(m['construct'])}
+      add('construct-partial:' + kind, 'constructed without allow_partial but a required field is missing: %s' % json.dumps(m['construct']))
     prev = m['construct']
+    bad_before = not m['conforms']
     ops = case['ops'] if kind == 'list' else [o for o, _ in case['ops']]
     scopes = [None] * len(ops) if kind == 'list' else [s for _, s in case['ops']]
+    why_steps = out.get('why_steps') or [[]] * len(ops)
     for i, (op, scope, s) in enumerate(zip(ops, scopes, m['steps'])):
       if scope:
         partial_allowed = True
+      why = why_steps[i] if i < len(why_steps) else []
       if kind != 'list' and not out.get('attached', [True] * len(ops))[i]:
-        return {'signature': 'member-detached:%s:%s' % (kind, op[0]),
-                'what': 'after %s (%s) a symbolic member of the %s no longer has it as parent / its key as path' % (
-                    json.dumps(op), s['err'] or 'ok', kind)}
-      if not s['conforms'] and 'frozen-value-differs' in out.get('why', []):
-        return {'signature': 'frozen-value-differs:%s:%s' % (kind, op[0]),
-                'what': 'after %s a frozen member of the %s does not hold its frozen value: %s (spec %s)' % (
-                    json.dumps(op), kind, json.dumps(s['items']), json.dumps(st))}
-      if (not s['conforms'] or (kind != 'list' and not partial_allowed and not s['complete'])) and \
-          'nested-required-field-missing' in out.get('why', []):
-        return {'signature': 'nested-required-field-missing:%s:%s' % (kind, op[0]),
-                'what': 'after %s the %s (never made partial) holds a member with a missing required field at depth >= 2: %s' % (
-                    json.dumps(op), kind, json.dumps(s['items']))}
-      if not s['conforms']:
-        if kind == 'list':
-          mn, mx = st[2], st[3]
-          size_bad = len(s['items']) < mn or (mx is not None and len(s['items']) > mx)
-          sig = ('size-out-of-bounds:' if size_bad else 'member-rejected-by-spec:') + op[0]
+        add('member-detached:%s:%s' % (kind, op[0]),
+            'after %s (%s) a symbolic member of the %s no longer has it as parent / its key as path' % (
+                json.dumps(op), s['err'] or 'ok', kind))
+      incomplete = kind != 'list' and not partial_allowed and not s['complete']
+      bad = (not s['conforms']) or incomplete
+      # a violation is attributed to the step that introduces it (the state stays bad afterwards)
+      if bad and not bad_before:
+        if not s['conforms'] and 'frozen-value-differs' in why:
+          add('frozen-value-differs:%s:%s' % (kind, op[0]),
+              'after %s a frozen member of the %s does not hold its frozen value: %s (spec %s)' % (
+                  json.dumps(op), kind, json.dumps(s['items']), json.dumps(st)))
+        elif 'nested-required-field-missing' in why:
+          add('nested-required-field-missing:%s:%s' % (kind, op[0]),
+              'after %s the %s (never made partial) holds a member with a missing required field at depth >= 2: %s' % (
+                  json.dumps(op), kind, json.dumps(s['items'])))
+        elif not s['conforms']:
+          if kind == 'list':
+            mn, mx = st[2], st[3]
+            size_bad = len(s['items']) < mn or (mx is not None and len(s['items']) > mx)
+            sig = ('size-out-of-bounds:' if size_bad else 'member-rejected-by-spec:') + op[0]
+          else:
+            sig = 'member-rejected-by-spec:%s:%s' % (kind, op[0])
+            t = self.typed_cause(case, op, s)
+            if t:
+              sig = 'typed-container-trusted:' + t
+          add(sig, 'after %s the %s %s violates its spec %s' % (
+              json.dumps(op), kind, json.dumps(s['items']), json.dumps(st)))
         else:
-          sig = 'member-rejected-by-spec:%s:%s' % (kind, op[0])
-          t = self.typed_cause(case, op, s)
-          if t:
-            sig = 'typed-container-trusted:' + t
-        return {'signature': sig, 'what': 'after %s the %s %s violates its spec %s' % (
-            json.dumps(op), kind, json.dumps(s['items']), json.dumps(st))}
-      if kind != 'list' and not partial_allowed and not s['complete']:
-        return {'signature': 'required-field-missing:%s:%s' % (kind, op[0]),
-                'what': 'after %s (never partial) a required field is missing: %s' % (json.dumps(op), json.dumps(s['items']))}
+          add('required-field-missing:%s:%s' % (kind, op[0]),
+              'after %s (never partial) a required field is missing: %s' % (json.dumps(op), json.dumps(s['items'])))
+      bad_before = bad
       if s['err'] in SCHEMA_ERRS:
-        batch = op[0] in ('extend', 'iadd', 'extend_iter', 'iadd_iter', 'imul', 'setslice', 'rebind', 'update', 'ior')
+        batch = op[0] in ('extend', 'iadd', 'extend_iter', 'iadd_iter', 'imul', 'setslice', 'rebind', 'update', 'ior', 'rebind_paths')
         if not batch and s['items'] != prev:
-          return {'signature': 'rejected-write-stored:%s:%s' % (kind, op[0]),
-                  'what': '%s raised %s but the %s changed from %s to %s' % (
-                      json.dumps(op), s['err'], kind, json.dumps(prev), json.dumps(s['items']))}
+          add('rejected-write-stored:%s:%s' % (kind, op[0]),
+              '%s raised %s but the %s changed from %s to %s' % (
+                  json.dumps(op), s['err'], kind, json.dumps(prev), json.dumps(s['items'])))
       prev = s['items']
-    return None
 
   def typed_cause(self, case, op, step):
     """If the violating member was written as an already typed container whose spec the field
